@@ -308,11 +308,58 @@ def _defrag_items(out):
         res.append((body, p, int(b)))
     return res
 
+def _top_items(listtext):
+    """elements of "[a b (c d) ...]" at nesting depth 0"""
+    items, depth, cur = [], 0, []
+    for ch in listtext[1:-1]:
+        if ch in "([": depth += 1
+        if ch in ")]": depth -= 1
+        if ch == " " and depth == 0:
+            if cur: items.append("".join(cur)); cur = []
+        else: cur.append(ch)
+    if cur: items.append("".join(cur))
+    return items
+
+def _handshake_framing(payload, impl_out, listed=True):
+    """framing oracle for handshake payloads: each returned message accounts for exactly 4 + its 24-bit
+    length, so the consumed byte count must be the sum over the returned messages, and a message whose
+    declared length exceeds the payload can never be returned"""
+    m = re.match(r"\(ok @\S*\+(\d+) (.*)\)$", impl_out or "")
+    if not m: return None
+    rem = int(m.group(1))
+    k = len(_top_items(m.group(2))) if listed else 1
+    pos = 0
+    for _ in range(k):
+        if pos + 4 > len(payload): return "returned %d handshake messages but the payload frames fewer" % k
+        hl = int.from_bytes(payload[pos+1:pos+4], "big")
+        if pos + 4 + hl > len(payload): return "a handshake message whose 24-bit length (%d) exceeds the payload was returned" % hl
+        pos += 4 + hl
+    if len(payload) - rem != pos:
+        return "consumed %d bytes but the %d returned messages frame %d" % (len(payload) - rem, k, pos)
+    return None
+
 def direct_oracle(pid, case, impl_out):
     """property-level predicates on the implementation's output (independent of the model)"""
+    if pid in ("C03", "C04", "C06", "C01"):
+        import vlib
+        e, a, hx = vlib.split_line(case.line)
+        b = bytes.fromhex(hx) if hx != "-" else b""
+        if e == "parse_tls_record_with_header" and a and a[0] == "22":
+            r = _handshake_framing(b, impl_out)
+            if r: return r
+        if e == "parse_tls_message_handshake":
+            r = _handshake_framing(b, impl_out, listed=False)
+            if r: return r
+        if e in ("parse_tls_plaintext", "tls_parser") and len(b) >= 5 and b[0] == 22:
+            L = int.from_bytes(b[3:5], "big")
+            m = re.match(r"\(ok @\S*\+(\d+) \(Plaintext \(Hdr [^)]*\) (\[.*\])\)\)$", impl_out or "")
+            if m and len(b) >= 5 + L:
+                # one-step parsing must consume the whole record; its messages must frame the payload exactly
+                r = _handshake_framing(b[5:5+L], "(ok @_+0 %s)" % m.group(2))
+                if r: return r
     if pid in ("C07", "C01") and case.line.startswith("defrag "):
         if "(panic)" in impl_out: return "defragmenter panicked"
-        import re, vlib
+        import vlib
         if impl_out.startswith("(defrag"):
             for body, p, b in _defrag_items(impl_out):
                 if body.startswith("(ok") and p != "0":
